@@ -969,6 +969,18 @@ func init() {
 		return Ptr{obj: &Obj{v: &BufRd{rd: rd, size: size}}}
 	}
 	T["bufio.NewReader"] = T["bufio.NewReaderSize"]
+	// Buffered: over a scripted connection every byte that has arrived counts as buffered (bufio reads ahead as
+	// much as the connection has); over another reader, what the model's buffer holds
+	T["(*bufio.Reader).Buffered"] = func(ex *Exec, fn *ssa.Function, args []Value) Value {
+		r := args[0].(Ptr).obj.v.(*BufRd)
+		if r.rd.t == nil {
+			if r.conn == nil || r.conn.closed {
+				return Const(64, 0)
+			}
+			return Const(64, uint64(len(r.conn.script)-r.conn.rd))
+		}
+		return Const(64, uint64(len(r.buf)))
+	}
 	T["(*bufio.Reader).ReadByte"] = func(ex *Exec, fn *ssa.Function, args []Value) Value {
 		r := args[0].(Ptr).obj.v.(*BufRd)
 		b, err := r.readByte(ex)
